@@ -1,6 +1,6 @@
 """C03 A hash does not depend on the history of the VM, cache or dataset objects."""
 import astq
-from rules import aes, argon, decode, driver, dsinit, genreset, jitcross
+from rules import a64patch, aes, argon, decode, driver, dsinit, genreset, jitcross
 
 LEVEL = 'other'
 TECHNIQUE = 'CFG dominance on the drivers, definite-assignment of per-program VM state, decoder def-use path enumeration, guard/capture agreement of the set_cache shortcut, sibling comparison of call sequences; vtable-resolved effect comparison of the two binding setters'
@@ -36,3 +36,4 @@ def run(ctx, R):
     for arch_ in ('x86', 'a64', 'rv64'):
         genreset.rule_gen_reset(ctx, R, arch_)
     dsinit.rule_initsel(ctx, R, F)   # the compiled SuperscalarHash / init loop is regenerated at every initCache: no code of an earlier key survives a re-key
+    a64patch.rule_patchlen(ctx, R)
